@@ -414,7 +414,7 @@ func c06(c *core.Ctx) {
 		ssax.Instrs(un, false, func(_ *ssa.Function, in ssa.Instruction) {
 			call, isCall := in.(*ssa.Call)
 			for _, op := range in.Operands(nil) {
-				if *op != ssa.Value(un.Params[1]) {
+				if *op != ssa.Value(paramOf(un, 1)) {
 					continue
 				}
 				if isCall && (isCallTo(call, "io.ReadFull") || isCallTo(call, pktPkg+".readRemain")) {
@@ -472,7 +472,7 @@ func c06(c *core.Ctx) {
 				return
 			}
 			for i, a := range call.Call.Args {
-				if a == ssa.Value(unpack.Params[1]) && i > 0 {
+				if a == ssa.Value(paramOf(unpack, 1)) && i > 0 {
 					// only the length prefix and the Next(length) cut may use the outer buffer
 					if !(isCallTo(call, pktPkg+".EncodeRemainLength") || isCallTo(call, "(*bytes.Buffer).Next")) {
 						okSub = false
@@ -482,7 +482,7 @@ func c06(c *core.Ctx) {
 					nReads++
 				}
 			}
-			if isCallTo(call, "(*bytes.Buffer).Next") && call.Call.Args[0] == ssa.Value(unpack.Params[1]) {
+			if isCallTo(call, "(*bytes.Buffer).Next") && call.Call.Args[0] == ssa.Value(paramOf(unpack, 1)) {
 				// Next(length) with the decoded property length
 				if !ssax.AnyIn(ssax.Backward(call.Call.Args[1]), func(v ssa.Value) bool { return isCallTo(v, pktPkg+".EncodeRemainLength") }) {
 					okSub = false
@@ -496,8 +496,8 @@ func c06(c *core.Ctx) {
 	drl := p.Func(pktPkg, "DecodeRemainLength")
 	gv := p.Func("", "getVariablelenght")
 	mtb := p.Func("", "(*Message).TotalBytes")
-	want := varintThresholds(drl, func(v ssa.Value) bool { return v == ssa.Value(drl.Params[0]) })
-	got1 := varintThresholds(gv, func(v ssa.Value) bool { return v == ssa.Value(gv.Params[0]) })
+	want := varintThresholds(drl, func(v ssa.Value) bool { return v == ssa.Value(paramOf(drl, 0)) })
+	got1 := varintThresholds(gv, func(v ssa.Value) bool { return v == ssa.Value(paramOf(gv, 0)) })
 	got2 := varintThresholds(mtb, func(v ssa.Value) bool { _, isPhi := v.(*ssa.Phi); return isPhi })
 	c.Analysed(fname(drl), fname(gv), fname(mtb))
 	c.Check(len(want) == 4 && fmt.Sprint(want) == fmt.Sprint(got1), "C06.R5", "varint|getVariablelenght", fpos(c, gv), fmt.Sprintf("thresholds %v agree with the encoder", want), fmt.Sprintf("getVariablelenght switches size at %v but the encoder (DecodeRemainLength) at %v: Message.TotalBytes is off by one at a boundary", got1, want))
